@@ -195,6 +195,10 @@ func (i *input) lex() {
 				}
 				if hasEscape && c == '\\' {
 					i.readRune() // Eat escape.
+					if isDocString {
+						// The backslash is part of the docstring's text.
+						content.WriteRune(c)
+					}
 				} else if i.match(quote) {
 					break
 				} else if (i.lang == language.JavaScript || i.lang == language.Perl) && c == '\n' {
